@@ -6,6 +6,8 @@ CONSTANTS
   HostWrites = FALSE
   MaxHostSets = 0
   EmitBeh = TRUE
+  MaxSnaps = 0
+  MaxRestores = 0
   Bug <- NoBugs
 INVARIANTS NextStatementFrozen FlowRefinesSem NextArgIgnored StackDiscipline EndAbsorbing EndReportedOnlyWhenEnded
            PendingNextIsNoOp DoneNeverWaits WaitingOnlyWhilePending CountIsJumpsOut VisitedIffPositive
